@@ -22,7 +22,9 @@ RULE = (
     "non-zero). kind 'from_epoch' (Hypothesis): n seconds (integers to "
     "+-1.2e11 quick / +-3.8e11 thorough biased to day/year/leap boundaries; "
     "non-negative fractions) -> TimePoint at 1970-01-01T00Z + n in UTC or the "
-    "faked local zone. kind 'to_epoch': seconds_since_unix_epoch of points in "
+    "faked local zone; kind 'strptime_epoch': the same through "
+    "TimePointParser.strptime(str(n), '%s') with and without an assumed zone. "
+    "kind 'to_epoch': seconds_since_unix_epoch of points in "
     "any representation/offset == whole seconds from the epoch. Non-trivial: "
     "zone configurations with a negative or non-zero-minute effective offset; "
     "n crossing a year boundary; points not in UTC calendar form. Distinct by "
@@ -135,9 +137,7 @@ def check_case(case):
                 ez = (0, 0) if utc else expected_local(cfg)
                 isint = float(n).is_integer()
                 exp = epoch + Fraction(float(n))
-                problems = nat.problems if isint else [
-                    x for x in nat.problems
-                    if x.split()[0] not in ("hour", "minute", "second")]
+                problems = nat.problems
                 if problems:
                     fail = "from_epoch_valid: n=%r -> %r: %s" % (n, nat.f, problems)
                 elif (nat.tzh, nat.tzm) != ez:
@@ -155,6 +155,33 @@ def check_case(case):
                             "negative" if n < 0 else "nonnegative"]
                 if abs(y - 1970) >= 100:
                     classes.append("|years|>=100")
+            elif kind == "strptime_epoch":
+                # building from n through the parser's %s directive
+                from metomi.isodatetime import parsers
+                n, cfg = case["n"], tuple(case["sys"])
+                parser = parsers.TimePointParser(
+                    assumed_time_zone=tuple(case["assumed"])
+                    if case["assumed"] is not None else None)
+                with fake_system_zone(cfg):
+                    p = parser.strptime(case["fmt"].replace("%s", str(n)),
+                                        case["fmt"])
+                    back = p.seconds_since_unix_epoch
+                nat = M.Native(cm, p)
+                if nat.problems:
+                    fail = "strptime_epoch_valid: %r -> %r: %s" % (
+                        n, nat.f, nat.problems)
+                elif nat.instant != epoch + n:
+                    fail = ("strptime_epoch_instant: mode %s strptime(%r, %r) "
+                            "with assumed zone %r under system zone %r -> %s, "
+                            "off by %s s" % (mode, str(n), case["fmt"],
+                                             case["assumed"], cfg, M.sp(p),
+                                             float(nat.instant - epoch - n)))
+                elif back != str(n):
+                    fail = "strptime_epoch_back: %r -> %s -> %r" % (
+                        n, M.sp(p), back)
+                nontrivial = case["assumed"] is not None or n < 0
+                classes += ["assumed" if case["assumed"] is not None else
+                            "no_assumed_zone"]
             else:
                 kw = case["p"]
                 p = M.make_point(kw)
@@ -229,6 +256,16 @@ def st_to_epoch(draw):
     return {"kind": "to_epoch", "mode": mode, "p": kw}
 
 
+@st.composite
+def st_strptime_epoch(draw):
+    c = draw(st_from_epoch(300))
+    n = c["n"]
+    n = int(n) if float(n).is_integer() else int(n)
+    return {"kind": "strptime_epoch", "mode": c["mode"], "n": n,
+            "sys": c["sys"], "fmt": draw(st.sampled_from(["%s", "%s", "@%s"])),
+            "assumed": list(draw(G.st_tz())) if draw(st.booleans()) else None}
+
+
 def zone_jobs(tier):
     jobs = []
     step = 60
@@ -253,3 +290,4 @@ def run_shard(ctx):
     big = 3800 if quick else 12000
     ctx.hyp(st_from_epoch(big), check_case, 600 if quick else 4000)
     ctx.hyp(st_to_epoch(), check_case, 1500 if quick else 40000, seed_salt=1)
+    ctx.hyp(st_strptime_epoch(), check_case, 300 if quick else 6000, seed_salt=2)
